@@ -99,6 +99,7 @@ def enum_chunk(args):
     drv = core.Driver()
     resp = drv.batch([{'op': 'script-enum', 'alphabet': ALPHABET, 'len': length, 'from': lo, 'to': hi}])[0]
     model = resp['res'].split(';') if hi > lo else []
+    mclosed = resp['closed']
     corr, prop = [], []
     closed = with_embed = 0
     for k, i in enumerate(range(lo, hi)):
@@ -106,6 +107,8 @@ def enum_chunk(args):
         code, subs = impl_pre(s)
         r = rep(code, subs)
         exp = oracle_pre(s)
+        if (exp is not None) != (mclosed[k] == 'C'):
+            raise core.MachineryError('the oracle tokenizer and the model (closedScript) disagree on whether %r is closed' % s)
         if exp is not None:
             closed += 1
             if exp[1]:
@@ -239,6 +242,8 @@ def check_strings(ctx, strings, label):
         ctx.case({'s': s}, nontrivial=exp is not None and bool(subs), sample=(ctx.evaluations % 397 == 0))
         ctx.traces += 1
         ctx.count('%s:%s' % (label, 'closed' if exp is not None else 'open'))
+        if (exp is not None) != m['closed']:
+            raise core.MachineryError('the oracle tokenizer and the model (closedScript) disagree on whether %r is closed' % s)
         if exp is not None and [code, subs] != [exp[0], exp[1]]:
             ctx.violation('preprocessing of %r: implementation gives %r %r, the property demands %r %r' % (s, code, subs, exp[0], exp[1]),
                           {'string': s, 'impl': [code, subs], 'expected': [exp[0], exp[1]]},
@@ -436,9 +441,15 @@ def run_exec(ctx, rng):
                 continue
             nested = list(direct.results.values())
             vals, by_pragma = {}, {}
-            for lv in LEVELS:
-                vals[lv] = ScriptRunner('x = ${ %s }' % q, data_values_nest_level=lv).run(msg)['x']
-                by_pragma[lv] = ScriptRunner('#$ %s = %d\nx = ${%s}' % (KEY, lv, q)).run(msg)['x']
+            try:
+                for lv in LEVELS:
+                    vals[lv] = ScriptRunner('x = ${ %s }' % q, data_values_nest_level=lv).run(msg)['x']
+                    by_pragma[lv] = ScriptRunner('#$ %s = %d\nx = ${%s}' % (KEY, lv, q)).run(msg)['x']
+            except Exception as e:
+                ctx.case({'file': fn, 'query': q}, nontrivial=True)
+                ctx.violation('%s: the script "x = ${%s}" fails although the query itself is answered: %r' % (fn, q, e),
+                              {'file': fn, 'query': q, 'error': repr(e)}, signature={'kind': 'execution-failed'})
+                continue
             nontrivial = any(isinstance(x, list) for sub in nested for x in sub) or len(nested) > 1
             ctx.case({'file': fn, 'query': q}, nontrivial=nontrivial, sample=(ctx.evaluations % 97 == 0))
             ctx.count('exec:' + fn)
@@ -466,12 +477,20 @@ def run_exec(ctx, rng):
             lv = rng.choice(LEVELS)
             script = '\n'.join('y%d = ${%s%s%s}' % (i, rng.choice(['', ' ']), e, rng.choice(['', ' ', '\t'])) for i, e in enumerate(exprs))
             script += "\ns = '${not an expr}' # ${neither}\nfn = PBK_FILENAME\nm = PBK_BUFR_MESSAGE"
-            runner = ScriptRunner(script, data_values_nest_level=lv)
             try:
-                variables = runner.prepare_variables(msg)
-                out = runner.run(msg)
+                for e in exprs:
+                    (mq if e.startswith('%') else dq).query(msg, e)
             except (PyBufrKitError, IndexError):
                 ctx.count('exec:script-query-rejected')
+                continue
+            try:
+                runner = ScriptRunner(script, data_values_nest_level=lv)
+                variables = runner.prepare_variables(msg)
+                out = runner.run(msg)
+            except Exception as e:
+                ctx.case({'file': fn, 'script': script, 'level': lv}, nontrivial=True)
+                ctx.violation('%s: script %r fails although every query in it is answered: %r' % (fn, script, e),
+                              {'file': fn, 'script': script, 'level': lv, 'error': repr(e)}, signature={'kind': 'execution-failed'})
                 continue
             model = ctx.driver.batch([{'op': 'script', 's': script, 'arg': lv}])[0]
             ctx.case({'file': fn, 'script': script, 'level': lv}, nontrivial=True)
@@ -513,8 +532,13 @@ def run_exec(ctx, rng):
         for _ in range(2 if ctx.tier == 'quick' else 8):
             exprs = [rng.choice(MD_EXPRS) for _ in range(rng.randint(1, 4))]
             script = '\n'.join('y%d = ${%s%s}' % (i, rng.choice(['', ' ', '\n']), e) for i, e in enumerate(exprs))
-            runner = ScriptRunner(script)
-            mixed = ScriptRunner(script + '\nz = ${%06d}' % msg.unexpanded_descriptors.value[0])
+            try:
+                runner = ScriptRunner(script)
+                mixed = ScriptRunner(script + '\nz = ${%06d}' % msg.unexpanded_descriptors.value[0])
+            except Exception as e:
+                ctx.violation('%s: ScriptRunner(%r) fails: %r' % (fn, script, e), {'file': fn, 'script': script, 'error': repr(e)},
+                              signature={'kind': 'execution-failed'})
+                continue
             ctx.case({'file': fn, 'script': script, 'md': True}, nontrivial=True)
             ctx.count('exec:metadata-only')
             bad = None
